@@ -2,6 +2,8 @@ package main
 
 // Job tables: which harness instantiations decide which property, per tier.
 
+import "strconv"
+
 type PropMeta struct {
 	Bounds      map[string]interface{}
 	Outside     []string
@@ -37,7 +39,7 @@ func kernelJobs() []Job {
 	}
 	// IntersectsSegment == spec over all reals: path-wise through the implementation, Raycast replaced by its
 	// contract (K1/K2 above); symmetry then follows from the symmetry of the spec (H_K_SpecSym).
-	out = append(out, Job{Pkg: "geometry", Harness: "H_K_SegSeg", Timeout: 120, Scale: true, Contracts: []string{fnRaycast}, ForkIn: []string{fnSegSeg}, Nlsat: true,
+	out = append(out, Job{Pkg: "geometry", Harness: "H_K_SegSeg", Timeout: 240, Scale: true, Contracts: []string{fnRaycast}, ForkIn: []string{fnSegSeg}, Nlsat: true,
 		Note: "path-wise over IntersectsSegment, Raycast by contract"})
 	// direct end-to-end searches with everything inlined, on the integer lattice only
 	out = append(out, Job{Pkg: "geometry", Harness: "H_K_SegSegSym", Timeout: 45, LatticeOnly: 8, NoCover: true, Note: "inlined, lattice [-8,8] only"})
@@ -61,7 +63,7 @@ func init() {
 	propMeta["C18"] = PropMeta{
 		Bounds: map[string]interface{}{
 			"quick":    "rings of n = 3..8 distinct vertices, with and without repeated closing vertex; every rotation of the start vertex for n <= 6; series of 0..8 points open and closed for the segment rule; ALL real coordinates",
-			"thorough": "n = 3..12, every rotation for n <= 9; series of 0..12 points; ALL real coordinates",
+			"thorough": "n = 3..24, every rotation for n <= 12; series of 0..24 points; ALL real coordinates",
 		},
 		Outside:     []string{"rings with more vertices than the bound", "coordinates outside the float-exact domain"},
 		Stubs:       []string{},
@@ -70,7 +72,7 @@ func init() {
 	jobTables["C18"] = func(tier string) []Job {
 		maxN, maxRot := 8, 6
 		if tier == "thorough" {
-			maxN, maxRot = 12, 9
+			maxN, maxRot = 24, 12
 		}
 		var out []Job
 		for n := 3; n <= maxN; n++ {
@@ -104,7 +106,7 @@ func raycastLemmaJobs() []Job {
 func init() {
 	propMeta["C01"] = PropMeta{
 		Bounds: map[string]interface{}{
-			"quick":    "rings n = 3..8 (closed/unclosed, any vertex sequence incl. self-intersecting, repeated, collinear), index kinds none/R-tree/quadtree built at n = 4, 8 (single-node compressed trees; writer and reader executed) and below/at/above the MinPoints threshold; polygon 4+3 and 5+4+3 (two holes); lines of 2..6 points; rect; point; object level: Point/SimplePoint x Polygon/Rect/LineString x bare/Feature; ALL real coordinates, Raycast replaced by its contract (K1/K2 proved in the same run)",
+			"quick":    "rings n = 3..8 (closed/unclosed, any vertex sequence incl. self-intersecting, repeated, collinear), index kinds none/R-tree/quadtree built at n = 4, 8 (single-node compressed trees; writer and reader executed) and below/at/above the MinPoints threshold; degenerate rings n = 3..5 with every vertex on one horizontal or vertical line; polygon 4+3 and 5+4+3 (two holes); lines of 2..6 points; rect; point; object level: Point/SimplePoint x Polygon/Rect/LineString x bare/Feature; ALL real coordinates, Raycast replaced by its contract (K1/K2 proved in the same run)",
 			"thorough": "rings up to n = 16 (R-tree) and 32 (quadtree), polygon 8+4+3, lines up to 12 points; otherwise as quick",
 		},
 		Outside:     []string{"multi-node index trees (covered structurally by C04 with scaled node constants)", "rings larger than the bound", "coordinates outside the float-exact domain", "composite harness with Raycast inlined: z3 does not decide n = 3 within 6 min, so the composition is only checked through the contract"},
@@ -131,6 +133,15 @@ func init() {
 				ring(n, 0, kind, 1)   // index built
 				ring(n, 1, kind, n+1) // at threshold (n+1 points with closing vertex)
 				ring(n, 0, kind, n+1) // below threshold: no index
+			}
+		}
+		// degenerate rings: every vertex on one horizontal / vertical line (zero-area bounding box)
+		for _, n := range []int{3, 4, 5} {
+			for flat := 1; flat <= 2; flat++ {
+				for closing := 0; closing <= 1; closing++ {
+					out = append(out, Job{Pkg: "geometry", Harness: "H_Member_Ring", Params: []int{n, closing, 0, 0, flat}, Timeout: 120, Scale: true, Contracts: c, NoCover: true})
+				}
+				out = append(out, Job{Pkg: "geometry", Harness: "H_Member_Ring", Params: []int{n, 1, flat, 1, flat}, Timeout: 120, Scale: true, Contracts: c, NoCover: true})
 			}
 		}
 		if tier == "thorough" {
@@ -188,7 +199,7 @@ func searchShapeJobs(tier string) []Job {
 			if mode == 2 && n > nq {
 				continue
 			}
-			out = append(out, Job{Pkg: "geometry", Harness: "H_Search", Params: []int{n, mode, 2, 1, 1}, Timeout: 60, Combine: true, Abstract: true,
+			out = append(out, Job{Pkg: "geometry", Harness: "H_Search", Params: []int{n, mode, 2, 1, 1}, Timeout: 60, Combine: true, Abstract: true, SymBudget: 1500,
 				Consts:    map[string]string{"geometry/qtree.go": "qMaxItems=2;qMaxDepth=2"},
 				ForkFuncs: []string{"(*" + pkgGeom + ".qNode).chooseQuad"},
 				Note:      "S-shape: quadtree with node constants scaled down (qMaxItems 32->2, qMaxDepth 16->2), every tree shape forked; midpoints arbitrary finite values"})
@@ -271,7 +282,7 @@ func init() {
 	propMeta["C11"] = PropMeta{
 		Bounds: map[string]interface{}{
 			"quick":    "all 11 non-Circle kinds built with the public constructors: Point, SimplePoint, LineString of 0..5 points, Polygon 3..5 + hole 0/3/4 with and without the repeated closing position, Rect, MultiPoint 0..3, MultiLineString (lines of 0..3 points, empties mixed in), MultiPolygon, GeometryCollection and FeatureCollection of [point, line, polygon with hole, nested collection [rect, empty line]], single-child collection, Feature; ALL real coordinate values (comparisons are exact for every finite double; -0 == +0 numerically)",
-			"thorough": "lines to 8 points, polygons to 8+5",
+			"thorough": "lines to 16 points, polygons (all three construction forms) to 12+8 and 16+0, MultiPoint to 10, MultiLineString 8+6, MultiPolygon 8+5, collections with a line of 8 / 6 points and a polygon with a 5 / 6-point hole",
 		},
 		Outside:     []string{"Circle (its rectangle is trigonometric: C13, not applicable)", "objects built by Parse (gjson)", "more children / deeper nesting than listed", "Center is compared with the same (min+max)/2 expression evaluated exactly: float rounding of the midpoint is not modelled"},
 		Stubs:       []string{},
@@ -286,7 +297,7 @@ func init() {
 		add(1, 0, 0)
 		maxL := 5
 		if tier == "thorough" {
-			maxL = 8
+			maxL = 16
 		}
 		for n := 0; n <= maxL; n++ {
 			add(2, n, 0)
@@ -297,7 +308,18 @@ func init() {
 			add(12, ab[0], ab[1])
 		}
 		if tier == "thorough" {
-			add(3, 8, 5)
+			for _, k := range []int{3, 11, 12} {
+				add(k, 8, 5)
+				add(k, 12, 8)
+				add(k, 16, 0)
+			}
+			add(7, 8, 5)
+			add(6, 8, 6)
+			add(8, 8, 5)
+			add(9, 6, 6)
+			for n := 4; n <= 10; n++ {
+				add(5, n, 0)
+			}
 		}
 		add(4, 0, 0)
 		for n := 0; n <= 3; n++ {
@@ -386,6 +408,16 @@ func apiJobs(tier string) []Job {
 			out = append(out, Job{Pkg: "geometry", Harness: "H_API_PolyLine", Params: params, Timeout: 120, Scale: true, Contracts: c, NoCover: true})
 		}
 	}
+	// two holes whose bounding boxes overlap (a triangle and a square beyond its hypotenuse), in both orders
+	{
+		ext2 := []ipt{{-2, -2}, {12, -2}, {12, 12}, {-2, 12}}
+		hA := []ipt{{0, 0}, {10, 0}, {0, 10}}
+		hB := []ipt{{7, 7}, {9, 7}, {9, 9}, {7, 9}}
+		for _, hs := range [][2][]ipt{{hA, hB}, {hB, hA}} {
+			params := append(append(append([]int{2, 2, 0}, ringParams(ext2)...), ringParams(hs[0])...), ringParams(hs[1])...)
+			out = append(out, Job{Pkg: "geometry", Harness: "H_API_PolyLine", Params: params, Timeout: 120, Scale: true, Contracts: c, NoCover: true})
+		}
+	}
 	tri := []ipt{{0, 0}, {2, 0}, {0, 2}}
 	sq1 := []ipt{{0, 0}, {1, 0}, {1, 1}, {0, 1}}
 	pairs := [][2][]ipt{{tri, tri}, {curatedRings[0], tri}, {curatedRings[0], sq1}, {tri, curatedRings[0]}, {curatedRings[1], sq1}, {curatedRings[4], curatedRings[7]}}
@@ -428,6 +460,40 @@ func apiJobs(tier string) []Job {
 		out = append(out, Job{Pkg: "geometry", Harness: "H_API_LineLine", Params: []int{mk[0], mk[1], mk[2]}, Timeout: 120, Scale: true, Contracts: []string{fnRaycast, fnSegSeg}, NoCover: mk[0]+mk[1] > 4})
 	}
 	lines := [][]ipt{{{0, 0}, {4, 0}}, {{0, 0}, {1, 0}, {2, 0}}, {{0, 0}, {2, 0}, {2, 2}}, {{0, 0}, {2, 0}, {1, 0}, {3, 0}}, {{0, 0}, {2, 0}, {1, 0}}, {{0, 0}, {2, 2}, {4, 0}, {2, 2}}}
+	// lines that cover two stretches of one straight line and leave a gap between them (the gap starts at the last
+	// vertex, at the first vertex, between interior vertices, between both ends)
+	lines = append(lines, []ipt{{3, 0}, {2, 0}, {0, 1}, {0, 0}, {1, 0}}, []ipt{{1, 0}, {0, 0}, {0, 1}, {2, 0}, {3, 0}},
+		[]ipt{{0, 0}, {1, 0}, {1, 1}, {2, 1}, {2, 0}, {3, 0}}, []ipt{{1, 0}, {0, 0}, {0, 1}, {3, 1}, {3, 0}, {2, 0}})
+	// every line of 3 (thorough: 4) lattice points on {0,1,2} x {0,1}, against every 2-point line
+	{
+		var grid []ipt
+		for x := 0; x <= 2; x++ {
+			for y := 0; y <= 1; y++ {
+				grid = append(grid, ipt{x, y})
+			}
+		}
+		k := 3
+		if tier == "thorough" {
+			k = 4
+		}
+		var rec func(cur []ipt)
+		rec = func(cur []ipt) {
+			if len(cur) >= 3 {
+				params := append([]int{2, 0}, ringParams(cur)...)
+				out = append(out, Job{Pkg: "geometry", Harness: "H_API_LineInLine", Params: params, Timeout: 120, Scale: true, Contracts: []string{fnRaycast, fnSegSeg}, NoCover: true})
+			}
+			if len(cur) == k {
+				return
+			}
+			for _, g := range grid {
+				if len(cur) > 0 && cur[len(cur)-1] == g {
+					continue
+				}
+				rec(append(append([]ipt{}, cur...), g))
+			}
+		}
+		rec(nil)
+	}
 	for i, l := range lines {
 		for m := 2; m <= 3; m++ {
 			params := append([]int{m, 0}, ringParams(l)...)
@@ -541,17 +607,17 @@ func init() {
 func init() {
 	propMeta["C17"] = PropMeta{
 		Bounds: map[string]interface{}{
-			"quick":    "writers of Point, PointZ, SimplePoint, LineString (2..3 positions, 0..2 extra ordinates), Polygon (exterior 0/2/3 + hole 0/3, 0..2 extra ordinates threaded across rings), Rect, Circle, Feature, GeometryCollection, FeatureCollection; one position at a time (and z / radius) ranges over ALL doubles including NaN and both infinities, the others over all finite values; prefixes of length 0..3 with spare capacity 0..8 and arbitrary prefix bytes",
-			"thorough": "same",
+			"quick":    "writers of Point, PointZ, SimplePoint, LineString (2..3 positions, 0..2 extra ordinates), Polygon (exterior 0/2/3 + hole 0/3, 0..2 extra ordinates threaded across rings), Rect, Circle, Feature (without members, and NewFeature with 14 concrete member texts: empty, {}, whitespace-only objects, id / properties / nested properties / feature members, padded text, arrays, strings, non-JSON), GeometryCollection, FeatureCollection, MultiPoint 0..3, MultiLineString (0..2 lines of 0..3 positions), MultiPolygon (0..2 polygons, hole 0/3); one position at a time (and z / radius) ranges over ALL doubles including NaN and both infinities, the others over all finite values; prefixes of length 0..3 with spare capacity 0..8 and arbitrary prefix bytes",
+			"thorough": "as quick plus lines of 8 positions, polygons 6+5 and 8+0, collections holding a 5+4 polygon, feature around a 6-position line",
 		},
-		Outside:     []string{"MultiPoint / MultiLineString / MultiPolygon writers (they re-extract child coordinates through gjson)", "member text (NewFeature with members, appendJSONExtra with members): gjson / sjson / pretty", "the digits strconv.AppendFloat produces (opaque token per value; -0 and +0 are not distinguished)", "objects built by Parse"},
-		Stubs:       []string{"strconv.AppendFloat: appends one opaque token carrying its argument; obligation that the argument is finite at every call", "strings.Index on constants"},
+		Outside:     []string{"gjson.GetBytes inside the Multi* writers is a token-level engine model of its documented contract (raw text of a plain top-level member), validated by the native replays only", "member texts other than the 14 listed (gjson / sjson / pretty are executed natively on concrete text only, never symbolically)", "the digits strconv.AppendFloat produces (opaque token per value; -0 and +0 are not distinguished)", "objects built by Parse"},
+		Stubs:       []string{"strconv.AppendFloat: appends one opaque token carrying its argument; obligation that the argument is finite at every call", "strings.Index on constants", "gjson.GetBytes(json, \"coordinates\") on bytes containing number tokens: token-level scan returning the member's raw value (engine/jsonlib.go); on concrete bytes the real function", "gjson.Valid / gjson.Parse / gjson.Get / sjson.Delete / pretty.UglyInPlace: the real library functions (module versions of /repo's go.mod) are called by the engine on concrete arguments"},
 		Assumptions: commonAssumptions,
 	}
 	jobTables["C17"] = func(tier string) []Job {
 		var out []Job
 		add := func(kind, n, m, dims, anyAt, plen, spare int) {
-			out = append(out, Job{Pkg: "geojson", Harness: "H_JSON", Params: []int{kind, n, m, dims, anyAt, plen, spare}, Timeout: 60, Combine: true, Abstract: true, NoCover: anyAt > 0})
+			out = append(out, Job{Pkg: "geojson", Harness: "H_JSON", Params: []int{kind, n, m, dims, anyAt, plen, spare}, Timeout: 60, Combine: true, Abstract: kind == 5, NoCover: anyAt > 0 && kind < 12, CoverKey: strconv.Itoa(kind)})
 		}
 		for _, ps := range [][2]int{{0, 0}, {2, 0}, {1, 8}, {3, 1}} {
 			add(0, 0, 0, 0, 0, ps[0], ps[1])
@@ -582,6 +648,45 @@ func init() {
 			add(7, 3, 3, dims, 0, 1, 3)
 			add(8, 3, 0, dims, 0, 0, 2)
 		}
+		if tier == "thorough" {
+			for dims := 0; dims <= 2; dims++ {
+				add(2, 8, 0, dims, 5, 3, 8)
+				add(3, 6, 5, dims, 4, 2, 4)
+				add(3, 8, 0, dims, 7, 0, 0)
+				add(7, 5, 4, dims, 0, 0, 0)
+				add(8, 5, 4, dims, 0, 1, 1)
+				add(6, 6, 0, dims, 3, 3, 5)
+			}
+		}
+		// Multi* writers (they re-extract each child's coordinates with gjson.GetBytes: engine model of that call)
+		for _, ps := range [][2]int{{0, 0}, {2, 3}} {
+			for n := 0; n <= 3; n++ {
+				add(12, n, 0, 0, -1, ps[0], ps[1])
+				if n > 0 {
+					add(12, n, 0, 0, n-1, ps[0], ps[1])
+				}
+			}
+			add(13, 0, -1, 0, -1, ps[0], ps[1]) // no lines
+			add(13, 2, -1, 0, 0, ps[0], ps[1])  // one line
+			add(13, 2, 3, 0, 3, ps[0], ps[1])
+			add(13, 0, 2, 0, -1, ps[0], ps[1]) // an empty line first
+			add(13, 3, 0, 0, 1, ps[0], ps[1])  // an empty line last
+			add(13, 1, 1, 0, 0, ps[0], ps[1])
+			add(14, 0, 0, 0, -1, ps[0], ps[1]) // no polygons
+			add(14, 3, 0, 1, 1, ps[0], ps[1])  // one polygon
+			add(14, 3, 3, 0, 101, ps[0], ps[1])
+			add(14, 4, 0, 0, 201, ps[0], ps[1])
+		}
+		if tier == "thorough" {
+			add(12, 8, 0, 0, 5, 1, 1)
+			add(13, 6, 5, 0, 7, 0, 0)
+			add(14, 6, 5, 0, 3, 2, 2)
+		}
+		// NewFeature with member text (table vMembers in the harness); the JSON helper libraries run natively on the concrete text
+		for mt := 0; mt <= 13; mt++ {
+			add(11, mt, 0, 0, -1, 0, 0)
+			add(11, mt, 0, 0, 0, 2, 3)
+		}
 		return out
 	}
 }
@@ -589,10 +694,26 @@ func init() {
 func matrixJobs(freeze int, full bool) []Job {
 	var out []Job
 	c := []string{fnRaycast, fnSegSeg}
-	n := 26
+	n := 28
+	inSet := func(x int, s ...int) bool {
+		for _, v := range s {
+			if v == x {
+				return true
+			}
+		}
+		return false
+	}
 	for a := 0; a < n; a++ {
 		for b := 0; b < n; b++ {
-			if (a >= 24 || b >= 24) && !(a >= 24 && b < 8 || b >= 24 && a < 4) {
+			if a >= 26 || b >= 26 {
+				// concrete concave indexed polygons (26 quadtree, 27 R-tree + hole): against the partners that reach
+				// the ring-in-ring / segment-in-ring case analysis
+				ok := a == 26 && inSet(b, 0, 1, 3, 4, 7, 8, 19, 21, 26, 27) || a == 27 && inSet(b, 0, 4, 19, 21, 26) ||
+					b == 26 && inSet(a, 0, 7, 8, 19, 20, 21) || b == 27 && inSet(a, 0, 19, 21)
+				if !ok {
+					continue
+				}
+			} else if (a >= 24 || b >= 24) && !(a >= 24 && b < 8 || b >= 24 && a < 4) {
 				continue // member-carrying variants: only against a few partners
 			}
 			// the heavy pairs (indexed shapes, circles against polygons) are sampled on the diagonal band unless full
@@ -609,7 +730,7 @@ func matrixJobs(freeze int, full bool) []Job {
 func init() {
 	propMeta["C05"] = PropMeta{
 		Bounds: map[string]interface{}{
-			"quick":    "every query method (Empty, Valid, Rect, Center, NumPoints, Members, Spatial, ForEach, Contains, Within, Intersects, Distance, the Spatial sub-interface, JSON/String/AppendJSON for non-Multi kinds, Children/Indexed/Search for collections) on all ordered pairs of 24 constructor-built variants (12 kinds incl. degenerate ones: zero/one-point lines, zero-length segments, NewPolygon(nil), two-point polygon, zero-area rect, zero-radius circle, empty and nil-child collections, nested features, indexed polygon with hole / line / multipolygon) with ALL real coordinates: no reachable panic (bounds, nil, type assertion) and every loop leaves within its unwinding bound (unwinding assertions); segment-index construction and search on concrete layouts of 40..300 points incl. ties and duplicates (real R-tree / quadtree constants); Line.ContainsLine on concrete lines x ALL symbolic lines",
+			"quick":    "every query method (Empty, Valid, Rect, Center, NumPoints, Members, Spatial, ForEach, Contains, Within, Intersects, Distance, the Spatial sub-interface, JSON/String/AppendJSON for non-Multi kinds, Children/Indexed/Search for collections) on all ordered pairs of 24 constructor-built variants (12 kinds incl. degenerate ones: zero/one-point lines, zero-length segments, NewPolygon(nil), two-point polygon, zero-area rect, zero-radius circle, empty and nil-child collections, nested features, indexed polygon with hole / line / multipolygon, and two concrete concave (L-shaped) indexed polygons against the point / line / polygon / rect variants) with ALL real coordinates: no reachable panic (bounds, nil, type assertion) and every loop leaves within its unwinding bound (unwinding assertions); segment-index construction and search on concrete layouts of 40..300 points incl. ties and duplicates (real R-tree / quadtree constants); Line.ContainsLine on concrete lines x ALL symbolic lines",
 			"thorough": "all 576 pairs (quick samples a third of the heaviest indexed/circle pairs)",
 		},
 		Outside:     []string{"Parse on arbitrary bytes and JSON of member text (gjson / pretty / sjson / strconv are not encoded)", "geo.* libm calls are assumed total", "polynomial running time is argued from the unwinding bounds, not measured", "objects larger than the listed variants"},
